@@ -72,6 +72,21 @@ Definition obj_node (f : ofam) (pid : nat) (po : Z) (o : node) : node :=
 (* the forms that can be assigned to with the 5D opcodes *)
 Definition assignable (f : ofam) : bool := match f with FSound | FSprite | FCast | FVideo => true | _ => false end.
 
+(* the zero-operand "the" forms of the 5C family: the <special property> (5C 00, numbers 0-5), the <date / time
+   function> (5C 00, numbers 6-11) and the <system property> (5C 07) *)
+Inductive thekind := TSpecial | TDateTime | TSystem.
+Definition the_num (k : thekind) (i : nat) : Z := match k with TDateTime => Z.of_nat i + 6 | _ => Z.of_nat i end.
+Definition the_code (k : thekind) : Z := match k with TSystem => 7 | _ => 0 end.
+Definition the_table (k : thekind) : list string :=
+  match k with TSpecial => SPECIAL_PROPERTIES | TDateTime => DATE_TIME_FUNCTIONS | TSystem => map fst SYSTEM_PROPERTIES end.
+Definition the_node (k : thekind) (i : nat) (po : Z) : node :=
+  let name := nth i (the_table k) "" in
+  match k with
+  | TSpecial => Leaf KPropName name po true
+  | TDateTime => Leaf KDateTime name po true
+  | TSystem => Accessor po (Leaf KLocal (assoc_or name SYSTEM_PROPERTIES) po true) name
+  end.
+
 Inductive expr :=
 | EInt (n : Z)                      (* inline integer: zero, one-byte or two-byte form *)
 | EConst (k : nat)                  (* k-th constant of the pool (string, 32-bit integer, float) *)
@@ -85,7 +100,8 @@ Inductive expr :=
 | EList (items : list expr)
 | EPList (items : list expr)               (* key, value, key, value, ... *)
 | EObj (f : ofam) (pid : nat) (a : expr)   (* the <property number pid> of <sound / sprite / cast> a *)
-| EMenu (pid : nat) (item menu : expr).    (* the <property number pid> of menuItem item of menu menu *)
+| EMenu (pid : nat) (item menu : expr)     (* the <property number pid> of menuItem item of menu menu *)
+| EThe (k : thekind) (i : nat).            (* the <i-th special property / date-time function / system property> *)
 
 Definition b (z : Z) : byte := byte_of_Z z.
 
@@ -123,6 +139,7 @@ Fixpoint compile_e (e : expr) : bytes :=
   | EPList items => flat_map compile_e items ++ compile_arglist (List.length items) true ++ [b 31]
   | EObj f pid x => compile_e x ++ compile_int (Z.of_nat pid) ++ [b 92; b (fcode f)]
   | EMenu pid it mn => compile_e it ++ compile_e mn ++ compile_int (Z.of_nat pid) ++ [b 92; b 3]
+  | EThe k i => compile_int (the_num k i) ++ [b 92; b (the_code k)]
   end.
 
 (* number of instructions *)
@@ -132,6 +149,7 @@ Fixpoint ninstr (e : expr) : nat :=
   | ENeg x | ENot x => ninstr x + 1
   | EObj _ _ x => ninstr x + 2
   | EMenu _ it mn => ninstr it + (ninstr mn + 2)
+  | EThe _ _ => 2
   | ECall _ args | ELCall _ args => fold_right (fun x a => ninstr x + a) 0 args + 2
   | EList items | EPList items => fold_right (fun x a => ninstr x + a) 0 items + 2
   | _ => 1
@@ -189,6 +207,7 @@ Fixpoint reify_e (en : env) (pc : Z) (e : expr) {struct e} : node :=
     let po := pm + zlen (compile_e mn) + zlen (compile_int (Z.of_nat pid)) in
     let i := reify_e en pc it in let mnode := reify_e en pm mn in
     Accessor po (MenuItemAcc po (ObjRef KMenu (name_of mnode) po mnode) (ObjRef KMenuItem (name_of i) po i)) (nth pid MENUITEM_PROPERTIES "")
+  | EThe k i => the_node k i (pc + zlen (compile_int (the_num k i)))
   end.
 
 Fixpoint reify_args (en : env) (pc : Z) (l : list expr) : list node * Z :=
@@ -241,13 +260,15 @@ Fixpoint wf_e (en : env) (e : expr) {struct e} : Prop :=
                     (fix all (l : list expr) : Prop := match l with [] => True | x :: r => wf_e en x /\ all r end) items
   | EObj f pid x => fpid_ok f pid /\ wf_e en x
   | EMenu pid it mn => (pid < List.length MENUITEM_PROPERTIES)%nat /\ wf_e en it /\ wf_e en mn
+  | EThe k i => (i < List.length (the_table k))%nat
   end.
 Fixpoint wf_args (en : env) (l : list expr) : Prop := match l with [] => True | x :: r => wf_e en x /\ wf_args en r end.
 
 (* the machine state agrees with the environment *)
 Definition agrees (en : env) (m : mstate) : Prop :=
   c_names (m_ctx m) = e_names en /\ c_lfuncs (m_ctx m) = e_lfuncs en /\ c_consts (m_ctx m) = e_consts en /\
-  c_bpc (m_ctx m) = 6 /\ f_params (m_fn m) = e_params en /\ f_locals (m_fn m) = e_locals en.
+  c_bpc (m_ctx m) = 6 /\ f_params (m_fn m) = e_params en /\ f_locals (m_fn m) = e_locals en /\
+  c_tell (m_ctx m) = false.      (* not inside a tell block: a system property is attached to its own object *)
 
 (* ---- straight-line statements ---- *)
 Inductive target := TLoc (i : nat) | TPar (i : nat) | TGlob (n : nat) | TProp (n : nat).
